@@ -941,7 +941,11 @@ def solve_sylvester_diagonal(
             # Sometimes eigs_A/eigs_B can be a scalar zero.
             eigs_A_select = eigs_A if not eigs_A.shape else eigs_A[Y_coo.row]
             eigs_B_select = eigs_B if not eigs_B.shape else eigs_B[Y_coo.col]
-            energy_denominators = 1 / (eigs_A_select - eigs_B_select)
+            energy_differences = eigs_A_select - eigs_B_select
+            with np.errstate(divide="ignore", invalid="ignore"):
+                energy_denominators = np.where(
+                    np.abs(energy_differences) > atol, 1 / energy_differences, 0
+                )
             new_data = Y_coo.data * energy_denominators
             return sparse.csr_array((new_data, (Y_coo.row, Y_coo.col)), Y_coo.shape)
         if isinstance(Y, sympy.MatrixBase):
